@@ -173,6 +173,45 @@ func extractC15(repo string) (string, error) {
 	}
 	b.WriteString("/-- case conditions of resolveMonotonicChannelRuntimeMeta's switch, in order, with the result each returns -/\n")
 	writeList("resolveCases", cases)
+	// 5. lock discipline: per mutating Shard method the source-order sequence of lock / row-read / write events
+	var order []string
+	for _, m := range []string{"UpsertChannelRuntimeMeta", "DeleteChannelRuntimeMeta", "AdvanceChannelRetentionThroughSeq"} {
+		fd := findMethod(f, "Shard", m)
+		if fd == nil {
+			return "", fmt.Errorf("Shard.%s not found", m)
+		}
+		var ev []string
+		ast.Inspect(fd.Body, func(n ast.Node) bool {
+			if d, ok := n.(*ast.DeferStmt); ok {
+				if exprText(d.Call.Fun) == "unlock" {
+					ev = append(ev, "defer-unlock")
+				}
+				return false
+			}
+			c, ok := n.(*ast.CallExpr)
+			if !ok {
+				return true
+			}
+			switch exprText(c.Fun) {
+			case "s.lock":
+				ev = append(ev, "lock")
+			case "s.getChannelRuntimeMetaByKey", "s.db.get", "s.db.engine.Get", "channelRuntimeMetaTable.Get":
+				ev = append(ev, "read")
+			case "batch.Commit":
+				ev = append(ev, "commit")
+			case "unlock":
+				ev = append(ev, "unlock")
+			}
+			return true
+		})
+		q := make([]string, len(ev))
+		for i, e := range ev {
+			q[i] = leanStr(e)
+		}
+		order = append(order, "("+leanStr(m)+", ["+strings.Join(q, ", ")+"])")
+	}
+	b.WriteString("/-- per mutating Shard method: lock / row read / commit / unlock calls in source order -/\n")
+	fmt.Fprintf(&b, "def lockOrder : List (String × List String) := [%s]\n\n", strings.Join(order, ",\n  "))
 	b.WriteString("end WK.Gen.C15\n")
 	return b.String(), nil
 }
